@@ -70,6 +70,8 @@ type goPanicVal struct {
 	Stack string
 }
 
+var traceFn = os.Getenv("SYMGO_TRACEFN") != ""
+
 type runtimeError string
 
 type internalErr struct {
@@ -101,6 +103,7 @@ type Interp struct {
 	FnsRun    map[*ssa.Function]bool
 	MapOrder  func(n int) []int // optional permutation oracle for map range
 	Params    map[string]int
+	NoModel   map[string]bool // external models switched off (validation harnesses)
 }
 
 func NewInterp(p *Program, tt *Table) *Interp {
@@ -305,6 +308,9 @@ func (in *Interp) call(fn *ssa.Function, args []Value, env []Value) Value {
 		} else if !in.inited[fn.Pkg] {
 			in.ensureInit(fn.Pkg)
 		}
+	}
+	if traceFn {
+		fmt.Fprintf(os.Stderr, "%*s%s\n", in.depth%60, "", fn.String())
 	}
 	in.depth++
 	if in.depth > 4000 {
